@@ -8,6 +8,7 @@ package prov
 import (
 	"bufio"
 	"bytes"
+	"compress/gzip"
 	"crypto"
 	"crypto/sha256"
 	"encoding/hex"
@@ -32,6 +33,11 @@ import (
 
 	"helm.sh/helm/v4/pkg/action"
 	chart "helm.sh/helm/v4/pkg/chart/v2"
+	"helm.sh/helm/v4/pkg/chart/v2/loader"
+	chartutil "helm.sh/helm/v4/pkg/chart/v2/util"
+	kubefake "helm.sh/helm/v4/pkg/kube/fake"
+	"helm.sh/helm/v4/pkg/storage"
+	"helm.sh/helm/v4/pkg/storage/driver"
 	"helm.sh/helm/v4/pkg/cli"
 	"helm.sh/helm/v4/pkg/downloader"
 	"helm.sh/helm/v4/pkg/getter"
@@ -65,6 +71,16 @@ type Case struct {
 		First    string `json:"first"`
 		Verdicts []bool `json:"verdicts"`
 	} `json:"history"`
+	CLI []struct {
+		Cmd    string `json:"cmd"`
+		Verify bool   `json:"verify"`
+		OK     bool   `json:"ok"`
+	} `json:"cli"`
+	Built []struct {
+		How string `json:"how"`
+		Own string `json:"own"`
+		OK  bool   `json:"ok"`
+	} `json:"built"`
 	Locate []struct {
 		Verify bool `json:"verify"`
 		Repo   bool `json:"repo"`
@@ -105,6 +121,7 @@ type world struct {
 	chartDir string
 	rng      *rand.Rand
 	// a second, untampered chart signed by the signer (the other dependency of a dependency update)
+	origPath    string
 	goodName    string
 	goodArchive []byte
 	goodProv    string
@@ -163,6 +180,7 @@ func newWorld(dir string, seed int64) (*world, error) {
 		return nil, err
 	}
 	w.name = filepath.Base(p)
+	w.origPath = p
 	w.archive, _ = os.ReadFile(p)
 	s, err := provenance.NewFromFiles(w.secFile["signer"], w.ringFile["signer"])
 	if err != nil {
@@ -191,6 +209,7 @@ func newWorld(dir string, seed int64) (*world, error) {
 
 // concrete is the concrete counterpart of the symbolic state.
 type concrete struct {
+	link        bool // the archive is presented through a symbolic link of the name c.name
 	caseVariant int
 	flipped     map[int]bool
 	archive []byte
@@ -361,7 +380,33 @@ func (w *world) apply(c *concrete, act string, m int) error {
 		c.muts = append(c.muts, fmt.Sprintf("archive cut to %d bytes", n))
 	case "Rename": // the name is a function of the abstract name alone: renaming twice gives the same name
 		c.name = strings.Replace(w.name, "mychart-", "mychart-copy-", 1)
+		c.link = false
 		c.muts = append(c.muts, "archive named "+c.name)
+	case "RenameLink": // the same new name as Rename, but the file of that name is a symbolic link to the archive
+		c.name = strings.Replace(w.name, "mychart-", "mychart-copy-", 1)
+		c.link = true
+		c.muts = append(c.muts, "archive reached through a symbolic link named "+c.name)
+	case "Repack": // gunzip and gzip again with other settings: other bytes, the same chart
+		zr, err := gzip.NewReader(bytes.NewReader(c.archive))
+		if err != nil {
+			c.archive = append(append([]byte(nil), c.archive...), 0) // not a gzip stream any more: grow it
+			c.muts = append(c.muts, "one byte appended to the archive")
+			break
+		}
+		raw, err := io.ReadAll(zr)
+		if err != nil {
+			c.archive = append(append([]byte(nil), c.archive...), 0)
+			c.muts = append(c.muts, "one byte appended to the archive")
+			break
+		}
+		var buf bytes.Buffer
+		zw, _ := gzip.NewWriterLevel(&buf, 1+w.rng.Intn(8))
+		zw.Comment = fmt.Sprintf("repacked %d", w.rng.Int63())
+		zw.Write(raw)
+		zw.Close()
+		c.archive = buf.Bytes()
+		c.flipped = nil
+		c.muts = append(c.muts, "archive gunzipped and gzipped again")
 	case "RenameCase": // the original letters in another case (the extension still says tgz to helm)
 		if c.caseVariant == 0 {
 			c.caseVariant = 1 + pick(3)
@@ -532,7 +577,15 @@ func (r *runner) place(c *concrete) string {
 	os.RemoveAll(dir)
 	os.MkdirAll(dir, 0o755)
 	p := filepath.Join(dir, c.name)
-	os.WriteFile(p, c.archive, 0o644)
+	if c.link && c.name != r.w.name {
+		real := filepath.Join(dir, "real", r.w.name)
+		os.MkdirAll(filepath.Dir(real), 0o755)
+		os.WriteFile(real, c.archive, 0o644)
+		os.WriteFile(real+".prov", c.prov, 0o644)
+		os.Symlink(real, p)
+	} else {
+		os.WriteFile(p, c.archive, 0o644)
+	}
 	os.WriteFile(p+".prov", c.prov, 0o644)
 	return p
 }
@@ -648,6 +701,56 @@ func (r *runner) verdicts(cs Case, rep int, c *concrete, wide bool) {
 					return nil, err
 				}, false)
 		}
+	}
+	// how the Signatory was built: its own Entity must not count as trusted
+	for _, b := range cs.Built {
+		b := b
+		record("Signatory("+b.How+","+b.Own+").Verify", b.OK, func() (*provenance.Verification, error) {
+			var s *provenance.Signatory
+			var err error
+			if b.How == "keyfile+ring" {
+				s, err = provenance.NewFromFiles(r.w.secFile[b.Own], ring)
+			} else { // the id picks the signing Entity out of the same keyring (none if the keyring has no such key)
+				s, err = provenance.NewFromKeyring(ring, fmt.Sprintf("C17 %s %d", b.Own, r.seed))
+			}
+			if err != nil {
+				return nil, err
+			}
+			return s.Verify(p, p+".prov")
+		}, false)
+	}
+	// the command line
+	_, loadErr := loader.LoadFile(p)
+	for _, cl := range cs.CLI {
+		cl := cl
+		if cl.OK && loadErr != nil && cl.Cmd != "verify" && cl.Cmd != "pull" {
+			continue // verifies, but the bytes are no chart any more: installing fails for that reason
+		}
+		record("helm "+cl.Cmd+" --verify", cl.OK, func() (*provenance.Verification, error) {
+			cfg := &action.Configuration{Releases: storage.Init(driver.NewMemory()), KubeClient: &kubefake.PrintingKubeClient{Out: io.Discard},
+				Capabilities: chartutil.DefaultCapabilities}
+			var err error
+			switch cl.Cmd {
+			case "verify":
+				_, err = runCLI(cfg, []string{"verify", p, "--keyring", ring})
+			case "pull":
+				dest := filepath.Join(r.work, "clipull")
+				os.RemoveAll(dest)
+				os.MkdirAll(dest, 0o755)
+				r.srv.set(map[string][]byte{"/stable/" + c.name: c.archive, "/stable/" + c.name + ".prov": c.prov}, nil)
+				_, err = runCLI(cfg, []string{"pull", r.srv.url + "/stable/" + c.name, "--verify", "--keyring", ring, "-d", dest})
+			case "install":
+				_, err = runCLI(cfg, []string{"install", "rel", p, "--verify", "--keyring", ring, "--namespace", "ns"})
+			case "upgrade-install":
+				_, err = runCLI(cfg, []string{"upgrade", "rel", p, "--install", "--verify", "--keyring", ring, "--namespace", "ns"})
+			case "upgrade":
+				if _, err = runCLI(cfg, []string{"install", "rel", r.w.origPath, "--namespace", "ns"}); err != nil {
+					return nil, fmt.Errorf("harness: the release to upgrade could not be installed: %v", err)
+				}
+				_, err = runCLI(cfg, []string{"upgrade", "rel", p, "--verify", "--keyring", ring, "--namespace", "ns"})
+			}
+			return nil, err
+		}, false)
 	}
 	// the keyring file rewritten between two verifications through the same path
 	for hi, h := range cs.History {
@@ -805,7 +908,7 @@ func (r *runner) singleSet(act string, full bool, c *concrete) []int {
 	}
 	if !full {
 		switch act {
-		case "Rename", "FixDigest", "FixName", "SwapSig", "SignEmpty", "SignTail", "SignHead", "SignNoMarker":
+		case "Rename", "RenameLink", "Repack", "FixDigest", "FixName", "SwapSig", "SignEmpty", "SignTail", "SignHead", "SignNoMarker":
 			return []int{0}
 		case "RenameCase":
 			return []int{0, 1, 2}
